@@ -26,7 +26,7 @@ ASSUMPTIONS = [
     '204/304 responses that carry a Content-Type (set by the application, or the F16 class) make wsgiref.validate inside falcon.testing raise on WSGI; they are compared on the other three paths only (C05 reports F16)',
 ]
 RULE = ('random wire-level requests: method x path from 0-4 segments (plain, percent-encoded UTF-8, invalid UTF-8, %2F, %20, sub-delims, empty segments, trailing slash, routed /items/{id}) x '
-        'raw query (repeated keys, blanks, CSV, percent-encoded UTF-8 / invalid bytes, "+", bare keys) x 0-7 headers from 24 header grammars in random case, non-singletons repeated, latin-1 values, '
+        'raw query (repeated keys, blanks, CSV, percent-encoded UTF-8 / invalid bytes, "+", bare keys) x 0-7 headers from 24 header grammars in random case, non-singletons repeated, latin-1 values, present-but-empty values (5 %, Accept 15 %), '
         'Host forms (name, name:port, IPv6, absent on HTTP/1.0, invalid port) x body (empty, JSON valid/invalid, urlencoded form, binary) with matching Content-Length or a malformed Content-Length on an empty body x '
         'scheme x server address x client address x root_path x request options (strip_url_path_trailing_slash, keep_blank_qs_values, auto_parse_qs_csv) x body access mode (read, sized reads, iterate, get_media, none) x '
         'C05 response plans (without SSE). Each case is run four times: spec WSGI driver, spec ASGI driver (random event chunking, optional keys omitted), falcon.testing.simulate_request on the WSGI app and on the ASGI app. '
@@ -283,10 +283,11 @@ def run(ctx):
         headers = []
         for n in names:
             nm = rnd.choice([n, n.lower(), n.upper()])
-            headers.append((nm, rnd.choice(HV[n])))
+            # a field line that is present but empty ("Accept:") is legal HTTP; Accept gets it more often (its absent/empty defaulting is per-stack code)
+            headers.append((nm, '' if rnd.random() < (0.15 if n == 'Accept' else 0.05) else rnd.choice(HV[n])))
             if rnd.random() < 0.2 and n.lower() not in SINGLETONS:
-                headers.append((rnd.choice([nm, n.lower()]), rnd.choice(HV[n])))
-        headers.append((rnd.choice(['User-Agent', 'user-agent']), rnd.choice(HV['User-Agent'])))
+                headers.append((rnd.choice([nm, n.lower()]), '' if rnd.random() < 0.05 else rnd.choice(HV[n])))
+        headers.append((rnd.choice(['User-Agent', 'user-agent']), '' if rnd.random() < 0.03 else rnd.choice(HV['User-Agent'])))
         http10 = rnd.random() < 0.05
         if not http10:
             headers.insert(rnd.randint(0, len(headers)), (rnd.choice(['Host', 'host', 'HOST']), rnd.choice(HOSTS[:8]) if rnd.random() < 0.93 else rnd.choice(HOSTS[8:])))
@@ -484,6 +485,10 @@ def run(ctx):
         ctx.count('method_' + w.method)
         ctx.count('body_mode_' + mode)
         ctx.count('with_body' if w.body else 'without_body')
+        if any(v == '' for _, v in w.headers):
+            ctx.count('with_a_present_but_empty_header')
+        if any(k.lower() == 'accept' and v == '' for k, v in w.headers):
+            ctx.count('with_an_empty_Accept' + ('_and_an_HTTPError_to_render' if p.get('raise') in ('notfound', 'httperror') else ''))
         if ci < 1:
             ctx.sample({'case': case, 'what_the_responder_saw (identical on all four paths)': dw, 'response (identical)': rw})
     sess.finish()
